@@ -278,6 +278,27 @@ impl Prop for C03 {
     fn execute(&self, case: &Case, st: &mut RunStats) -> Outcome<Case> {
         run_case(case, st)
     }
+    fn known_finding(&self, case: &Case, v: &Violation) -> Option<&'static str> {
+        let all_constant = case.prog.calls.iter().any(|c| matches!(c, Call::Pc { proto, .. } if !proto.is_empty() && proto.iter().all(|r| r.dt.bits() == 0)));
+        if all_constant && (v.class == "points-read-error" || v.class == "points") {
+            return Some("F13b");
+        }
+        None
+    }
+    fn regressions(&self) -> Vec<(String, Case)> {
+        let proto = vec![
+            Rec { name: Name::Std(0), dt: DType::Int { min: 7, max: 7 } },
+            Rec { name: Name::Std(1), dt: DType::Int { min: -5, max: -5 } },
+            Rec { name: Name::Std(2), dt: DType::Scaled { min: 0, max: 0, scale: B64::of(0.001), offset: B64::of(0.0) } },
+        ];
+        let prog = Program {
+            guid: "file".into(),
+            calls: vec![Call::Pc { guid: "pc".into(), proto, steps: vec![PcStep::Points { n: 3, seed: 1 }], end: SubEnd::Finalize }],
+            end: End::Finalize,
+            knob: None,
+        };
+        vec![("F13b legal file whose records all have minimum = maximum".into(), Case { prog, layout: Layout::plain(1), rchunk: Chunk::Full, foreign: 0 })]
+    }
     fn shrink(&self, case: &Case) -> Vec<Case> {
         let mut out = Vec::new();
         for l in shrink_layout(&case.layout) {
